@@ -301,6 +301,45 @@ def rule_c(F):
                    "CallFunction passes the opcode position (argument %s)" % starts if starts else
                    "instr_call_function is not given the position of the CallFunction opcode"))
         start_arg = starts[0] if starts else None
+    # 1b. a call that fails is not an active frame: no error exit of instr_call_function lies after push_call_frame succeeded
+    icf0 = F.fn("vm::instr_execution::instr_call_function")
+    cfg0 = icf0.cfg
+    from cao import mirutil as mu
+    from cao.facts import callee_names
+    pushes = [(bi, t) for bi, t in mu.calls(icf0) if "vm::instr_execution::push_call_frame" in callee_names(t["func"])]
+    key1b = "C15/C/instr_call_function/failed-call-is-not-a-frame"
+    if not pushes:
+        res.append(undecided("C15.C", key1b, icf0.loc(), "push_call_frame call not found in MIR"))
+    else:
+        errs = set()
+        for bi, b in enumerate(icf0.blocks):
+            t = b["term"]
+            if t["k"] == "call" and any(x.endswith("from_residual") for x in callee_names(t["func"])) and t["dest"]["l"] == 0:
+                errs.add(bi)
+            for st in b["stmts"]:
+                if st["k"] == "assign" and st["place"]["l"] == 0 and not st["place"]["p"] and mu.is_err_aggregate(st["rv"]):
+                    errs.add(bi)
+        late = set()
+        for pb, pt in pushes:
+            # the `?` on push_call_frame's own result is its failure, not a later one
+            from rules.c16 import origin_call_block
+            from cao.facts import DefUse, op_local
+            du0 = DefUse(icf0)
+            for e in errs:
+                if e in cfg0.reachable_from(pt["target"]):
+                    t = icf0.blocks[e]["term"]
+                    own = False
+                    if t["k"] == "call" and t["args"]:
+                        a0 = op_local(t["args"][0])
+                        own = a0 is not None and origin_call_block(icf0, du0, a0) == pb
+                    if not own:
+                        late.add(e)
+        if late:
+            res.append(bad("C15.C", key1b, icf0.loc(icf0.blocks[sorted(late)[0]]["term"].get("ln")),
+                           "instr_call_function can fail after it has pushed the call frame (e.g. the label lookup): the failed call is then "
+                           "also an active frame, the error trace lists the call card twice - trace[1..] is not the chain of active callers"))
+        else:
+            res.append(ok("C15.C", key1b, icf0.loc(), "no error exit after push_call_frame succeeded"))
     # 2. instr_call_function forwards that parameter as push_call_frame's src_ptr
     pcf = F.fn("vm::instr_execution::push_call_frame")
     pcf_params = [p.get("id") for p in pcf.hir["params"]]
@@ -505,7 +544,7 @@ def rule_f(F):
 RULES = [
     Rule("C15.I", rule_i, 40, "compiler child numbering equals Card::get_child for every card kind"),
     Rule("C15.P", rule_p, 50, "runtime errors are located at the failing instruction's opcode position"),
-    Rule("C15.C", rule_c, 3, "call frames record the CallFunction opcode position"),
+    Rule("C15.C", rule_c, 4, "call frames record the CallFunction opcode position"),
     Rule("C15.K", rule_k, 4, "compile errors raised by Compiler carry the current card"),
     Rule("C15.G", rule_g, 30, "a card's own instructions are recorded under its own index"),
     Rule("C15.F", rule_f, 1, "every active call frame contributes one trace entry"),
